@@ -4,6 +4,9 @@ CONSTANTS
   CopyOnReuse = TRUE
   GuardTypedNil = FALSE
   BinMarshalerOpts = TRUE
+  ClonesCapLimited = TRUE
+  ParseErrorWins = TRUE
+  SharedSkipCounter = FALSE
   MaxRecs = 2
   MaxFields = 2
   FieldIds = {1, 2}
